@@ -810,6 +810,26 @@ impl<'a> crate::ranger::Store<SignedEntry> for StoreInstance<'a> {
     }
 
     fn get_range(&mut self, range: Range<RecordIdentifier>) -> Result<Self::RangeIterator<'_>> {
+        // The range bounds come from the remote peer and may lie in other namespaces: never let a
+        // scan leave the namespace of this replica.
+        let ns = self.namespace.to_bytes();
+        let lower = |id: &RecordIdentifier| {
+            let id = id.to_byte_tuple();
+            if id.0 < ns {
+                RecordsBounds::namespace_start(&self.namespace)
+            } else {
+                Bound::Included(id)
+            }
+        };
+        let upper = |id: &RecordIdentifier| {
+            let id = id.to_byte_tuple();
+            if id.0 > ns {
+                RecordsBounds::namespace_end(&self.namespace)
+            } else {
+                Bound::Excluded(id)
+            }
+        };
+        let (lower_x, upper_y) = (lower(range.x()), upper(range.y()));
         let tables = self.store.as_mut().tables()?;
         let iter = match range.x().cmp(range.y()) {
             // identity range: iter1 = all, iter2 = none
@@ -822,22 +842,18 @@ impl<'a> crate::ranger::Store<SignedEntry> for StoreInstance<'a> {
             // regular range: iter1 = x <= t < y, iter2 = none
             Ordering::Less => {
                 // iterator for entries from range.x to range.y
-                let start = Bound::Included(range.x().to_byte_tuple());
-                let end = Bound::Excluded(range.y().to_byte_tuple());
-                let bounds = RecordsBounds::new(start, end);
+                let bounds = RecordsBounds::new(lower_x, upper_y);
                 let iter = RecordsRange::with_bounds(&tables.records, bounds)?;
                 chain_none(iter)
             }
             // split range: iter1 = start <= t < y, iter2 = x <= t <= end
             Ordering::Greater => {
                 // iterator for entries from start to range.y
-                let end = Bound::Excluded(range.y().to_byte_tuple());
-                let bounds = RecordsBounds::from_start(&self.namespace, end);
+                let bounds = RecordsBounds::from_start(&self.namespace, upper_y);
                 let iter = RecordsRange::with_bounds(&tables.records, bounds)?;
 
                 // iterator for entries from range.x to end
-                let start = Bound::Included(range.x().to_byte_tuple());
-                let bounds = RecordsBounds::to_end(&self.namespace, start);
+                let bounds = RecordsBounds::to_end(&self.namespace, lower_x);
                 let iter2 = RecordsRange::with_bounds(&tables.records, bounds)?;
 
                 iter.chain(Some(iter2).into_iter().flatten())
